@@ -84,6 +84,13 @@ def _lex(text):
                     munch_ok = False
             if v == '.' and text[start + 1:start + 2].isdigit():
                 munch_ok = False
+        if (t.type == 'ID' or t.type in Lexer.keywords or
+                t.type in ('GETPROP', 'SETPROP')) and isinstance(v, str):
+            # longest match for words too (7.6): the character after an
+            # IdentifierName is not an identifier part
+            nxt = text[start + len(v):start + len(v) + 1]
+            if nxt and is_identifier_part(nxt):
+                munch_ok = False
         if t.type in ('GETPROP', 'SETPROP'):
             kw_ok = v == t.type[:3].lower()
         elif t.type in Lexer.keywords:
@@ -96,6 +103,13 @@ def _lex(text):
                     t.lineno, getattr(t, 'colno', -1),
                     text_ok, munch_ok, kw_ok, t.type])
     return out
+
+
+def is_identifier_part(ch):
+    """IdentifierPart of section 7.6 (escape sequences aside)"""
+    import unicodedata
+    return (ch in '$_\u200c\u200d' or unicodedata.category(ch) in (
+        'Lu', 'Ll', 'Lt', 'Lm', 'Lo', 'Nl', 'Mn', 'Mc', 'Nd', 'Pc'))
 
 
 def explained_by_gap_lsps(text, toks):
